@@ -14,13 +14,16 @@ import (
 	"encoding/json"
 	"fmt"
 	"hash/crc32"
+	"math"
 	"math/rand"
 	"os"
+	"sort"
 	"strings"
 	"testing"
 	"time"
 
 	client "github.com/liftbridge-io/liftbridge-api/v2/go"
+	gnatsd "github.com/nats-io/nats-server/v2/server"
 	"github.com/nats-io/nats.go"
 	"google.golang.org/grpc"
 	gproto "google.golang.org/protobuf/proto"
@@ -528,6 +531,166 @@ func vC14NumericShapes(name string) []*proto.PropagatedRequest {
 	}
 }
 
+// ---- the inventory of NATS subjects ----------------------------------------------
+
+// vC14LiveSubjects: the subjects the server's NATS connections are subscribed to right now, read from
+// the embedded NATS server's subscription list (everything in the global account that does not belong
+// to the harness' own connection), with namespace, server id, stream name and numbers replaced by
+// NS, ID, STREAM, N (a partition suffix of the stream subject is dropped).
+func vC14LiveSubjects(srv *Server, own uint64, stream string) ([]string, []string, error) {
+	sz, err := srv.embeddedNATS.Subsz(&gnatsd.SubszOptions{Subscriptions: true, Limit: 100000})
+	if err != nil {
+		return nil, nil, err
+	}
+	ns, id := srv.config.Clustering.Namespace, srv.config.Clustering.ServerID
+	set := map[string]bool{}
+	raw := []string{}
+	for _, d := range sz.Subs {
+		if d.Cid == own || strings.HasPrefix(d.Subject, "$SYS") || strings.HasPrefix(d.Account, "$SYS") {
+			continue
+		}
+		raw = append(raw, d.Subject)
+		subj := d.Subject
+		if strings.HasPrefix(subj, ns+".") {
+			subj = "NS." + subj[len(ns)+1:]
+		}
+		toks := strings.Split(subj, ".")
+		for j, tk := range toks {
+			switch {
+			case tk == stream:
+				toks[j] = "STREAM"
+			case tk == id:
+				toks[j] = "ID"
+			case tk != "" && strings.Trim(tk, "0123456789") == "":
+				toks[j] = "N"
+			}
+		}
+		pat := strings.Join(toks, ".")
+		if pat == "STREAM.N" {
+			pat = "STREAM"
+		}
+		if strings.HasPrefix(pat, "NS.ack.") {
+			pat = "NS.ack.X"
+		}
+		set[pat] = true
+	}
+	out := []string{}
+	for k := range set {
+		out = append(out, k)
+	}
+	sort.Strings(out)
+	return out, raw, nil
+}
+
+// vC14SubjectRequest: subject, envelope type and protobuf payload of a well-formed message for subject h
+// naming the entities ent (spec/Envelope.tla EntsOf) - resolved against what really exists on the server.
+func vC14SubjectRequest(srv *Server, part *partition, stream, h string, ent map[string]interface{}) (string, byte, []byte, error) {
+	id := srv.config.Clustering.ServerID
+	name := map[string]string{"absent": "c14-no-such-stream", "empty": "", "present": stream}[vStr(ent, "s")]
+	count := int32(0)
+	if st := srv.metadata.GetStream(stream); st != nil {
+		count = int32(len(st.GetPartitions()))
+	}
+	pid := map[string]int32{"first": 0, "last": count - 1, "count": count, "neg": -1, "max": math.MaxInt32, "min": math.MinInt32}[vStr(ent, "p")]
+	replica := map[string]string{"self": id, "unknown": "zzz", "empty": ""}[vStr(ent, "r")]
+	part.mu.RLock()
+	cur := part.LeaderEpoch
+	part.mu.RUnlock()
+	epoch := map[string]uint64{"zero": 0, "current": cur, "other": cur + 7, "max": math.MaxUint64}[vStr(ent, "e")]
+	var (
+		data []byte
+		err  error
+	)
+	strip := func(subject string, typ byte) (string, byte, []byte, error) {
+		if err != nil {
+			return "", 0, nil, err
+		}
+		return subject, typ, append([]byte{}, data[8:]...), nil // canonical envelope: the payload follows the 8-byte header
+	}
+	switch h {
+	case "notify":
+		data, err = proto.MarshalPartitionNotification(&proto.PartitionNotification{Stream: name, Partition: pid})
+		return strip(srv.getPartitionNotificationInbox(id), 14)
+	case "partstatus":
+		data, err = proto.MarshalPartitionStatusRequest(&proto.PartitionStatusRequest{Stream: name, Partition: pid})
+		return strip(srv.getPartitionStatusInbox(id), 12)
+	case "serverinfo":
+		data, err = proto.MarshalServerInfoRequest(&proto.ServerInfoRequest{Id: replica})
+		return strip(srv.getServerInfoInbox(), 10)
+	case "replreq":
+		data, err = proto.MarshalReplicationRequest(&proto.ReplicationRequest{ReplicaID: replica, Offset: part.log.NewestOffset(), LeaderEpoch: epoch})
+		return strip(part.getReplicationRequestInbox(), 2)
+	case "leaderoffset":
+		data, err = proto.MarshalLeaderEpochOffsetRequest(&proto.LeaderEpochOffsetRequest{LeaderEpoch: epoch})
+		return strip(part.getLeaderOffsetRequestInbox(), 6)
+	case "join":
+		data, err = proto.MarshalRaftJoinRequest(&proto.RaftJoinRequest{NodeID: id, NodeAddr: id})
+		return strip(fmt.Sprintf("%s.join", srv.baseMetadataRaftSubject()), 4)
+	case "raftaccept":
+		return fmt.Sprintf("%s.%s.accept", srv.baseMetadataRaftSubject(), id), 0, nil, nil
+	case "ack", "ackasync":
+		code := map[string]int32{"zero": 0, "current": 2, "other": 99, "max": math.MaxInt32}[vStr(ent, "e")]
+		data, err = proto.MarshalAck(&client.Ack{Stream: name, PartitionSubject: name, MsgSubject: name, Offset: 3,
+			AckError: client.Ack_Error(code)})
+		return strip("", 1)
+	case "propagate":
+		req := &proto.PropagatedRequest{}
+		switch vStr(ent, "op") {
+		case "shrink":
+			req.Op = proto.Op_SHRINK_ISR
+			req.ShrinkISROp = &proto.ShrinkISROp{Stream: name, Partition: pid, ReplicaToRemove: replica, Leader: id, LeaderEpoch: epoch}
+		case "expand":
+			req.Op = proto.Op_EXPAND_ISR
+			req.ExpandISROp = &proto.ExpandISROp{Stream: name, Partition: pid, ReplicaToAdd: replica, Leader: id, LeaderEpoch: epoch}
+		case "report":
+			req.Op = proto.Op_REPORT_LEADER
+			req.ReportLeaderOp = &proto.ReportLeaderOp{Stream: name, Partition: pid, Replica: replica, Leader: id, LeaderEpoch: epoch}
+		case "pause":
+			req.Op = proto.Op_PAUSE_STREAM
+			req.PauseStreamOp = &proto.PauseStreamOp{Stream: name, Partitions: []int32{pid}}
+		case "resume":
+			req.Op = proto.Op_RESUME_STREAM
+			req.ResumeStreamOp = &proto.ResumeStreamOp{Stream: name, Partitions: []int32{pid}}
+		case "readonly":
+			req.Op = proto.Op_SET_STREAM_READONLY
+			req.SetStreamReadonlyOp = &proto.SetStreamReadonlyOp{Stream: name, Partitions: []int32{pid}, Readonly: true}
+		}
+		data, err = proto.MarshalPropagatedRequest(req)
+		return strip(srv.getPropagateInbox(), 8)
+	}
+	return "", 0, nil, fmt.Errorf("unknown subject %q", h)
+}
+
+// vC14ReplyClass classifies what came back on the reply subject of a request.
+func vC14ReplyClass(h string, data []byte) string {
+	switch h {
+	case "serverinfo":
+		if _, err := proto.UnmarshalServerInfoResponse(data); err == nil {
+			return "resp"
+		}
+	case "partstatus":
+		if r, err := proto.UnmarshalPartitionStatusResponse(data); err == nil {
+			if r.Exists {
+				return "exists"
+			}
+			return "missing"
+		}
+	case "leaderoffset":
+		if _, err := proto.UnmarshalLeaderEpochOffsetResponse(data); err == nil {
+			return "resp"
+		}
+	case "join":
+		if _, err := proto.UnmarshalRaftJoinResponse(data); err == nil {
+			return "resp"
+		}
+	case "propagate":
+		if _, err := proto.UnmarshalPropagatedResponse(data); err == nil {
+			return "resp"
+		}
+	}
+	return "garbled"
+}
+
 type vC14Entry struct {
 	K  string `json:"k"`
 	ID int    `json:"id"`
@@ -628,11 +791,40 @@ func TestVerifC14Server(t *testing.T) {
 	}
 	defer conn.Close()
 	api := client.NewAPIClient(conn)
+	ownCid, err := nc.GetClientID()
+	if err != nil {
+		t.Fatalf("INCONCLUSIVE: client id: %v", err)
+	}
+	replies, err := nc.SubscribeSync("c14reply.>")
+	if err != nil {
+		t.Fatalf("INCONCLUSIVE: reply subscription: %v", err)
+	}
+	// what came back on reply subject `on` so far (a late answer is simply not there: recorded as "none")
+	replyOn := func(h, on string) string {
+		for {
+			m, err := replies.NextMsg(3 * time.Millisecond)
+			if err != nil {
+				return "none"
+			}
+			if m.Subject == on {
+				return vC14ReplyClass(h, m.Data)
+			}
+		}
+	}
+	alive := func() {
+		probe, _ := proto.MarshalServerInfoRequest(&proto.ServerInfoRequest{Id: "c14-probe"})
+		if _, err := nc.Request(srv.getServerInfoInbox(), probe, vC14Deadline); err != nil {
+			t.Fatalf("INCONCLUSIVE: server does not answer the liveness probe: %v", err)
+		}
+	}
+	inventoried := false
 
 	for _, b := range sf.Behaviours {
 		seed := vIntDef(b.Cfg, "seed", 1)
 		stream := fmt.Sprintf("c14-%d", b.ID)
 		creq := &client.CreateStreamRequest{Name: stream, Subject: stream}
+		nparts := int(vIntDef(b.Cfg, "parts", 1))
+		creq.Partitions = int32(nparts)
 		if vBool(b.Cfg, "occ") {
 			creq.OptimisticConcurrencyControl = &client.NullableBool{Value: true}
 		}
@@ -642,11 +834,17 @@ func TestVerifC14Server(t *testing.T) {
 		var part *partition
 		deadline := time.Now().Add(vC14Deadline)
 		for {
-			part = srv.metadata.GetPartition(stream, 0)
-			if part != nil {
-				if l, _ := part.GetLeader(); l == "a" && part.IsLeader() {
-					break
+			ready := 0
+			for j := nparts - 1; j >= 0; j-- {
+				part = srv.metadata.GetPartition(stream, int32(j))
+				if part != nil {
+					if l, _ := part.GetLeader(); l == "a" && part.IsLeader() {
+						ready++
+					}
 				}
+			}
+			if ready == nparts {
+				break
 			}
 			if time.Now().After(deadline) {
 				t.Fatalf("INCONCLUSIVE: partition did not start")
@@ -656,7 +854,21 @@ func TestVerifC14Server(t *testing.T) {
 		emitted = 0
 		emit(map[string]interface{}{"a": "Open", "t": b.ID, "st": map[string]interface{}{"up": true, "stored": []vC14Entry{}},
 			"obs": map[string]interface{}{"a": "Open"}})
+		if !inventoried {
+			inventoried = true
+			subs, raw, err := vC14LiveSubjects(srv, ownCid, stream)
+			if err != nil {
+				t.Fatalf("INCONCLUSIVE: subscription list: %v", err)
+			}
+			emit(map[string]interface{}{"a": "Inventory", "t": b.ID, "subs": subs, "raw": raw, "sites": []string{}})
+		}
 		pubs := []vC14Pub{}
+		var (
+			async       client.API_PublishAsyncClient
+			asyncInbox  string
+			asyncCancel context.CancelFunc
+			asyncResp   chan *client.PublishResponse
+		)
 		for sn, step := range b.Steps {
 			switch vStr(step, "a") {
 			case "Burst":
@@ -769,6 +981,151 @@ func TestVerifC14Server(t *testing.T) {
 				emit(map[string]interface{}{"a": "Internal", "t": b.ID, "args": args,
 					"st":  map[string]interface{}{"up": srv.IsRunning(), "stored": stored},
 					"obs": map[string]interface{}{"a": "Internal", "k": "sent", "same": true}})
+			case "Subject":
+				im := step["i"].(map[string]interface{})
+				k := vC14Key{Len: int(vInt(im, "len")), MagicOK: vBool(im, "magicOK"), VerOK: vBool(im, "verOK"),
+					CrcFlag: vBool(im, "crcFlag"), OtherFlags: vBool(im, "otherFlags"), TypeOK: vBool(im, "typeOK"),
+					CrcOK: vBool(im, "crcOK")}
+				hl, pbOK, h := int(vInt(im, "hl")), vBool(step, "pbOK"), vStr(step, "h")
+				ent := step["ent"].(map[string]interface{})
+				subject, typ, tmpl, err := vC14SubjectRequest(srv, part, stream, h, ent)
+				if err != nil {
+					t.Fatalf("INCONCLUSIVE: %v", err)
+				}
+				if pbOK && k.Len > 8 && tmpl != nil {
+					// the abstract length "a payload is present" becomes the real length of the request built
+					pos := 8
+					if hl >= 8 && hl <= 64 {
+						pos = hl
+					}
+					k.Len = pos + len(tmpl)
+				}
+				c := vC14ConcretiseTyped(k, hl, pbOK, "plain", vC14Rng(seed, k, hl, pbOK, 3000+sn), typ, tmpl)
+				im2 := map[string]interface{}{}
+				for kk, vv := range im {
+					im2[kk] = vv
+				}
+				im2["len"] = k.Len
+				args := map[string]interface{}{"i": im2, "pbOK": pbOK, "h": h, "ent": ent}
+				reply := "none"
+				switch h {
+				case "ack":
+					// the server as requester: a Publish call to a subject nobody serves waits on an ack inbox
+					// the client chose; the bytes arrive there instead of an ack
+					subject = fmt.Sprintf("c14ack.%d.%d", b.ID, sn)
+					type res struct {
+						r   *client.PublishToSubjectResponse
+						err error
+					}
+					done := make(chan res, 1)
+					ctx, cancel := context.WithTimeout(context.Background(), vC14Deadline)
+					go func() {
+						r, err := api.PublishToSubject(ctx, &client.PublishToSubjectRequest{Subject: fmt.Sprintf("c14void.%d.%d", b.ID, sn),
+							Value: []byte("x"), AckInbox: subject, AckPolicy: client.AckPolicy_LEADER})
+						done <- res{r, err}
+					}()
+					deadline := time.Now().Add(vC14Deadline)
+					for {
+						sz, err := srv.embeddedNATS.Subsz(&gnatsd.SubszOptions{Subscriptions: true, Test: subject, Limit: 100000})
+						if err == nil && len(sz.Subs) > 0 {
+							break
+						}
+						if time.Now().After(deadline) {
+							cancel()
+							t.Fatalf("INCONCLUSIVE: the publish call did not subscribe to its ack inbox")
+						}
+						time.Sleep(500 * time.Microsecond)
+					}
+					intent(map[string]interface{}{"t": b.ID, "step": sn, "a": "Subject", "args": args, "hex": fmt.Sprintf("%x", c.data), "subject": subject})
+					if err := nc.Publish(subject, c.data); err != nil {
+						t.Fatalf("INCONCLUSIVE: nats publish: %v", err)
+					}
+					nc.Flush()
+					r := <-done
+					expired := ctx.Err() != nil
+					cancel()
+					switch {
+					case r.err == nil && r.r != nil && r.r.Ack != nil:
+						reply = "ack"
+					case r.err != nil && !expired:
+						reply = "error"
+					}
+					alive()
+				case "ackasync":
+					if async == nil {
+						ctx, cancel := context.WithCancel(context.Background())
+						st, err := api.PublishAsync(ctx)
+						if err != nil {
+							cancel()
+							t.Fatalf("INCONCLUSIVE: publish async: %v", err)
+						}
+						async, asyncCancel = st, cancel
+						asyncResp = make(chan *client.PublishResponse, 1024)
+						go func(st client.API_PublishAsyncClient, ch chan *client.PublishResponse) {
+							for {
+								m, err := st.Recv()
+								if err != nil {
+									return
+								}
+								ch <- m
+							}
+						}(st, asyncResp)
+						deadline := time.Now().Add(vC14Deadline)
+						for asyncInbox == "" {
+							_, raw, _ := vC14LiveSubjects(srv, ownCid, stream)
+							for _, r := range raw {
+								if strings.HasPrefix(r, srv.config.Clustering.Namespace+".ack.") {
+									asyncInbox = r
+								}
+							}
+							if asyncInbox == "" {
+								if time.Now().After(deadline) {
+									t.Fatalf("INCONCLUSIVE: the async publish session did not subscribe to an ack inbox")
+								}
+								time.Sleep(500 * time.Microsecond)
+							}
+						}
+					}
+					subject = asyncInbox
+					for len(asyncResp) > 0 { // answers that came too late for their own step
+						<-asyncResp
+					}
+					intent(map[string]interface{}{"t": b.ID, "step": sn, "a": "Subject", "args": args, "hex": fmt.Sprintf("%x", c.data), "subject": subject})
+					if err := nc.Publish(subject, c.data); err != nil {
+						t.Fatalf("INCONCLUSIVE: nats publish: %v", err)
+					}
+					nc.Flush()
+					time.Sleep(5 * time.Millisecond)
+					alive()
+					select {
+					case m := <-asyncResp:
+						if m.AsyncError != nil {
+							reply = "error"
+						} else if m.Ack != nil {
+							reply = "ack"
+						}
+					case <-time.After(3 * time.Millisecond):
+					}
+				default:
+					on := fmt.Sprintf("c14reply.%d.%d", b.ID, sn)
+					intent(map[string]interface{}{"t": b.ID, "step": sn, "a": "Subject", "args": args, "hex": fmt.Sprintf("%x", c.data), "subject": subject})
+					if err := nc.PublishRequest(subject, on, c.data); err != nil {
+						t.Fatalf("INCONCLUSIVE: nats publish: %v", err)
+					}
+					nc.Flush()
+					// let the handler run, then make sure the process still answers on NATS
+					time.Sleep(5 * time.Millisecond)
+					alive()
+					reply = replyOn(h, on)
+				}
+				msgs, err := vC14ReadLog(part)
+				if err != nil {
+					t.Fatalf("INCONCLUSIVE: read log: %v", err)
+				}
+				stored, _ := vC14Project(msgs, pubs, stream)
+				emit(map[string]interface{}{"a": "Subject", "t": b.ID, "args": args, "subject": subject,
+					"st":  map[string]interface{}{"up": srv.IsRunning(), "stored": stored},
+					"obs": map[string]interface{}{"a": "Subject", "k": "sent", "same": true, "reply": reply}})
 			case "ReadBack":
 				// a consumer subscribes from the start: it must receive what the log holds
 				intent(map[string]interface{}{"t": b.ID, "step": sn, "a": "ReadBack", "args": map[string]interface{}{}})
@@ -803,6 +1160,10 @@ func TestVerifC14Server(t *testing.T) {
 					"st":  map[string]interface{}{"up": srv.IsRunning(), "stored": stored},
 					"obs": map[string]interface{}{"a": "ReadBack", "k": kind, "same": same, "got": delivered}})
 			}
+		}
+		if async != nil {
+			async.CloseSend()
+			asyncCancel()
 		}
 		if _, err := srv.api.DeleteStream(context.Background(), &client.DeleteStreamRequest{Name: stream}); err != nil {
 			t.Logf("delete stream: %v", err)
